@@ -243,6 +243,19 @@ def zero_paths(ctx, world):
         ctx.fail("A13.align", "def_linear", "autograd.core.def_linear", loc_of(m, node), "def_linear's rule is not fun(*subval(args, argnum, g), **kwargs)", "a linear primitive differentiated w.r.t. its second argument or called with keyword options")
 
 
+def _rule_dict(sc):
+    """the dictionary of translated rules built by defvjp / defjvp: a dict comprehension / loop-built dict (comp
+    normal form) or dict(zip(keys, values)); returns the term (identity is what dispatchers capture) or None"""
+    for v_ in sc.vars.values():
+        if v_ is None:
+            continue
+        if v_.op == "comp" and v_.get("kind") == "DictComp":
+            return v_
+        if is_call_to(v_, "builtins.dict") and len(v_.args) == 1 and not v_.kw and (is_call_to(v_.args[0], "builtins.zip") or v_.args[0].op == "comp"):
+            return v_
+    return None
+
+
 def _is_same_call(res, fun, argnum, g, args, kw):
     if res is None or res.op != "call" or res.fn is not fun:
         return False
@@ -1092,7 +1105,7 @@ def dispatch(ctx, world):
     q = "autograd.core.defvjp.vjp_argnums"
     argnums, ans, args, kw = (T("sym", name=n_, role="param") for n_ in ("argnums", "ans", "args", "kwargs"))
     r = ev.apply(clo_d, list(pre_d) + [argnums, ans, args, kw], dict(prekw_d), [])
-    vd = next((v_ for v_ in osc.vars.values() if v_ is not None and v_.op == "comp" and v_.get("kind") == "DictComp"), None)
+    vd = _rule_dict(osc)
     if vd is None:
         raise AnalysisError("defvjp no longer builds a dictionary of translated rules")
     g = T("sym", name="g", role="g")
@@ -1172,33 +1185,47 @@ def dispatch(ctx, world):
     for fname, tr, dname in (("defvjp", "translate_vjp", "vjps_dict"), ("defjvp", "translate_jvp", "jvps_dict")):
         rr, sy, m2, fn, scd = eval_function(world, CORE, fname)
         kwv, mk_s, fun_s = sy[fn.args.kwarg.arg] if fn.args.kwarg else None, sy[fn.args.vararg.arg] if fn.args.vararg else None, sy[fn.args.args[0].arg]
-        # the dict captured by the registered dispatcher
-        inner = [st for st in fn.body if isinstance(st, ast.FunctionDef)]
-        d = None
-        for nm_, v_ in scd.vars.items():
-            if v_.op == "comp" and v_.get("kind") == "DictComp":
-                d = v_
+        kwonly = [sy[a_.arg] for a_ in fn.args.kwonlyargs]
+        d = _rule_dict(scd)
+        is_count = lambda c: is_call_to(c, "itertools.count") and not c.args and not c.kw
+
+        def is_argnums(t):
+            # kwargs.get("argnums", count())  |  kwargs["argnums"] if "argnums" in kwargs else count()
+            # |  count() if argnums is None else argnums   (keyword-only parameter with default None)
+            if kwv is not None and t.op == "call" and t.fn.op == "attr" and t.fn.name == "get" and t.fn.obj is kwv and len(t.args) == 2 and t.args[0].op == "const" and t.args[0].value == "argnums":
+                return is_count(t.args[1])
+            if t.op == "if":
+                a, pol = atom(t.cond)
+                yes, no = (t.then, t.other) if pol else (t.other, t.then)
+                if kwv is not None and a.op == "cmp" and a.opname == "In" and a.l.op == "const" and a.l.value == "argnums" and a.r is kwv:
+                    return yes.op == "sub" and yes.obj is kwv and yes.idx.op == "const" and yes.idx.value == "argnums" and is_count(no)
+                if a.op == "cmp" and a.opname in ("Is", "Eq") and _is_none(a.r) and any(a.l is k_ for k_ in kwonly):
+                    return is_count(yes) and no is a.l
+            return False
+
+        def translated(v, e_mk, e_an):
+            return is_call_to(v, f"autograd.core.{tr}") and len(v.args) == 3 and not v.kw and e_mk(v.args[0]) and v.args[1] is fun_s and e_an(v.args[2])
+
         okz = False
-        if d is not None and kwv is not None and mk_s is not None and not d.conds:
+        if d is not None and mk_s is not None and d.op == "comp" and not d.conds:
             z = d.src
-            def is_argnums(t):
-                # kwargs.get("argnums", count())  |  kwargs["argnums"] if "argnums" in kwargs else count()
-                is_count = lambda c: is_call_to(c, "itertools.count") and not c.args and not c.kw
-                if t.op == "call" and t.fn.op == "attr" and t.fn.name == "get" and t.fn.obj is kwv and len(t.args) == 2 and t.args[0].op == "const" and t.args[0].value == "argnums":
-                    return is_count(t.args[1])
-                if t.op == "if":
-                    a, pol = atom(t.cond)
-                    if a.op == "cmp" and a.opname == "In" and a.l.op == "const" and a.l.value == "argnums" and a.r is kwv:
-                        yes, no = (t.then, t.other) if pol else (t.other, t.then)
-                        return yes.op == "sub" and yes.obj is kwv and yes.idx.op == "const" and yes.idx.value == "argnums" and is_count(no)
-                return False
             zok = is_call_to(z, "builtins.zip") and len(z.args) == 2 and not z.kw and is_argnums(z.args[0]) and z.args[1] is mk_s
             e_an = lambda t: t.op == "sub" and t.obj.op == "iterelem" and t.obj.src is z and t.idx.op == "const" and t.idx.value == 0
             e_mk = lambda t: t.op == "sub" and t.obj.op == "iterelem" and t.obj.src is z and t.idx.op == "const" and t.idx.value == 1
             el = d.elt
             if zok and el.op == "tuple" and len(el.elts) == 2 and e_an(el.elts[0]):
-                v = el.elts[1]
-                okz = is_call_to(v, f"autograd.core.{tr}") and len(v.args) == 3 and not v.kw and e_mk(v.args[0]) and v.args[1] is fun_s and e_an(v.args[2])
+                okz = translated(el.elts[1], e_mk, e_an)
+        elif d is not None and mk_s is not None and is_call_to(d, "builtins.dict") and is_call_to(d.args[0], "builtins.zip") and len(d.args[0].args) == 2:
+            # dict(zip(keys, values)) with values = [translate(maker, fun, key) for key, maker in zip(keys', makers)]:
+            # each maker must be translated with the key it is stored under (keys' the same sequence as keys)
+            K, V = d.args[0].args
+            Vc = V.args[0] if (V.op == "call" and V.fn.op == "ref" and V.fn.ref.qual in ("builtins.list", "builtins.tuple") and len(V.args) == 1) else V
+            if is_argnums(K) and Vc.op == "comp" and not Vc.conds:
+                z = Vc.src
+                zok = is_call_to(z, "builtins.zip") and len(z.args) == 2 and not z.kw and same(z.args[0], K) and z.args[1] is mk_s
+                e_an = lambda t: t.op == "sub" and t.obj.op == "iterelem" and t.obj.src is z and t.idx.op == "const" and t.idx.value == 0
+                e_mk = lambda t: t.op == "sub" and t.obj.op == "iterelem" and t.obj.src is z and t.idx.op == "const" and t.idx.value == 1
+                okz = bool(zok) and translated(Vc.elt, e_mk, e_an)
         if okz:
             ctx.ob("A13.align", f"{fname}: rules keyed by zip(argnums= or 0,1,2.., makers) and translated with their own argnum", True, loc_of(m2, fn))
         else:
@@ -1226,7 +1253,7 @@ def dispatch(ctx, world):
                 e_an = lambda t: t.op == "sub" and t.obj.op == "iterelem" and t.idx.op == "const" and t.idx.value == 0
                 e_g = lambda t: t.op == "sub" and t.obj.op == "iterelem" and t.idx.op == "const" and t.idx.value == 1
                 if kind == "dict":
-                    jd = next((v_ for v_ in osc3.vars.values() if v_ is not None and v_.op == "comp" and v_.get("kind") == "DictComp"), None)
+                    jd = _rule_dict(osc3)
                     ok = zok and el.op == "call" and el.fn.op == "sub" and el.fn.obj is jd and e_an(el.fn.idx) and len(el.args) == 3 and e_g(el.args[0]) and el.args[1] is a_ and el.args[2].op == "star" and el.args[2].x is ar and len(el.dstar) == 1 and el.dstar[0] is kw_
                 else:
                     jm = osy3["#1"]
@@ -1290,7 +1317,8 @@ def raise_discipline(ctx, world):
             outer_name = path.split(".")[0]
             clo_, pre_, prekw_, osy_, m, outer_fn_, osc_, reg_ = registered_closure(world, modname, outer_name, ".defvjp_argnums" if outer_name == "defvjp" else ".defjvp_argnums")
             fn = clo_.fnode
-            dvar = next((nm_ for nm_, v_ in osc_.vars.items() if v_ is not None and v_.op == "comp" and v_.get("kind") == "DictComp"), None)
+            dterm_ = _rule_dict(osc_)
+            dvar = next((nm_ for nm_, v_ in osc_.vars.items() if v_ is dterm_), None) if dterm_ is not None else None
             if dvar is not None:
                 table = dvar
                 # inside a module-level factory the captured dict has the factory's parameter name
